@@ -207,6 +207,13 @@ Drain(st, took, max, ptoks) ==
          \* the first message has to be the CSM (RFC 8323 5.3); the statement does
          \* not say what becomes of a peer that starts with something else
          ELSE IF ~st.csm /\ code \notin {CSM, RELEASE, ABORT} /\ took THEN Stop(s1, "may")
+         \* An option whose number is of string format in the request/response
+         \* registry and whose value is not UTF-8: a request/response may be refused
+         \* as unparsable or passed on as it is; for a signalling message the
+         \* statement does not say with which registry its options are read, so
+         \* refusing it (Abort + close) and treating it normally are both admissible.
+         \* Nothing else is: if the endpoint closes here it must have written Abort.
+         ELSE IF ~StringsOk(p.opts) /\ took THEN Stop(s1, "fatal")
          ELSE IF IsSig(code) THEN
            IF code = CSM THEN Drain([next EXCEPT !.csm = TRUE], took, max, ptoks)
            ELSE IF code = PING THEN Drain([next EXCEPT !.wr = Append(@, <<"pong", tok>>)], took, max, ptoks)
@@ -215,9 +222,8 @@ Drain(st, took, max, ptoks) ==
            \* unknown signalling code: the statement does not say
            ELSE IF took THEN Stop(s1, "may") ELSE Drain(next, took, max, ptoks)
          ELSE IF code = EMPTY THEN Drain([next EXCEPT !.nempty = @ + 1], took, max, ptoks)
-         \* a trailing payload marker (RFC 7252: format error) and a string
-         \* option that is not UTF-8 may be refused or passed on as they are
-         ELSE IF (p.trail \/ ~StringsOk(p.opts)) /\ took THEN Stop(s1, "fatal")
+         \* a trailing payload marker (RFC 7252: format error) may be refused or passed on
+         ELSE IF p.trail /\ took THEN Stop(s1, "fatal")
          ELSE IF ~st.csm THEN Drain(next, took, max, ptoks)      \* never dispatched
          ELSE Drain([next EXCEPT !.disp = Append(@, Msg(code, tok, p.opts, p.pay)),
                                  !.pend = IF IsResp(code) THEN Answer(@, ptoks, tok) ELSE @],
